@@ -59,7 +59,7 @@ func isInt(t types.Type) bool {
 }
 
 func runC06(a *Analyzer, r *Results) {
-	pr := props("C06", "C01", "C02", "C03")
+	pr := props("C06", "C01", "C02", "C03", "C07", "C10")
 	pkgPath := modPath + "/services/quorum"
 	if a.P.ByPath[pkgPath] == nil {
 		broken("unresolved anchor: package services/quorum")
